@@ -679,7 +679,7 @@ fn enumerate(rep: &mut Report, full_bound: usize, reduced_bound: usize) {
 pub fn plan(tier: Tier) -> Plan {
     let (full, reduced) = tier.pick((3, 2), (4, 3));
     Plan {
-        campaigns: vec![
+        campaigns: vec![Box::new(crate::fuzzdec::FuzzReplay("fuzz_decode", "decode")), 
             Box::new(Mutations),
             Box::new(Streams),
             Box::new(Raw),
